@@ -213,8 +213,11 @@ Undeliverable(hdr, ops, I, e) == \E m \in Emissions(e) : \E t \in DeliveredAtOnc
 CheckJustified(hdr, ops, I, e) == \E m \in Emissions(e) : \E t \in MaybeChecked(hdr, ops, I, m[1]) \ {"nil"} : MayBeRefused(m[2], t)
 \* a nil handed over a connection that needs NO run-time check (any -> any, iface -> any ...) is outside the statement: the receiving
 \* wrapper's own type assertion fails on it in the unchanged library; a panic of such a run is not judged
+\* (likewise in Stream mode: the library's invoke-to-stream adapter panics on a nil result before the value reaches any connection)
 NilOverUncheckedConnection(hdr, ops, I, e) ==
-  \E m \in Emissions(e) : m[2] = "nil" /\ \E t \in Delivered(hdr, ops, I, m[1]) : Assign(OutT(hdr, ops, I, m[1]), t) = "must"
+  \E m \in Emissions(e) : m[2] = "nil" /\ (\/ e.mode = "stream"
+                                           \/ Carriers(ops, I, m[1]) # {m[1]}       \* it enters a pass-through node, which may have taken the producer's interface type
+                                           \/ \E t \in Delivered(hdr, ops, I, m[1]) : Assign(OutT(hdr, ops, I, m[1]), t) = "must")
 
 --------------------------------------------------------------------------------
 (* Outcome of a call: "ok" | "E" an error | "S" the very error value of the first failed Add* | "C" ErrGraphCompiled |    *)
